@@ -199,7 +199,11 @@ fn reader_borrow_case(ctx: &Ctx, stream: &str, idx: u64, rng: &mut Rng, n_entrie
     cfg.block_size = Some(1024);
     cfg.levels = Some(*rng.pick(&[0u8, 1, 2, 2, 3]));
     cfg.interval = Some(*rng.pick(&[1usize, 2, 8]));
-    let entries = if small {
+    let entries = if small && idx % 2 == 1 {
+        // long keys: data blocks and the deepest index level are cut during insert
+        cfg.levels = Some(2);
+        (0..14u32).map(|i| { let mut k = vec![b'k'; 330 + (i as usize % 3) * 20]; k[0..4].copy_from_slice(&i.to_be_bytes()); (k, vec![i as u8; 3]) }).collect()
+    } else if small {
         // ~3 KiB of payload: a handful of 1 KiB blocks
         (0..n_entries as u32).map(|i| (i.to_be_bytes().to_vec(), vec![i as u8; 60 + (i as usize * 37) % 90])).collect()
     } else if rng.chance(1, 2) {
@@ -207,7 +211,15 @@ fn reader_borrow_case(ctx: &Ctx, stream: &str, idx: u64, rng: &mut Rng, n_entrie
     } else {
         gen::gen_entries(rng, gen::KeyShape::K2, gen::ValShape::Medium, n_entries)
     };
-    let Ok(bytes) = gen::build_file(&cfg, &entries) else { return };
+    let bytes = match gen::build_file(&cfg, &entries) {
+        Ok(b) => b,
+        Err(e) => {
+            // writing a strictly ascending sequence failed under the memory monitor: a panic here
+            // is what a read of freed or uninitialised memory in the writer looks like
+            ctx.violation("write-failed-under-memory-monitor", stream, idx, J::obj().set("part", "reader-borrow (file construction)").set("config", cfg.render()).set("n_entries", entries.len()).set("observed", e));
+            return;
+        }
+    };
     let df = if small { None } else { decoder::decode(&bytes, None).ok() };
     let layout = Layout::new(df.as_ref(), entries.len());
     let m = Model::new(&entries);
